@@ -150,6 +150,27 @@ def enumerate_cases(tier, shard=0, nshards=1):
                         ['op', '=', ['op', '*', ['num', L], ['num', L]],
                          ['op', '^', ['num', L], ['num', '2']]]):
                     yield {'tree': t, 'text': '=' + R.render(t), 'cells': {}}
+        # whole numbers of the TOP BINADE of the doubles (2^1023 .. 1.797e308)
+        # are ordinary operands; results beyond it are #NUM!
+        p308 = ['op', '^', ['num', '10'], ['num', '308']]
+        p307 = ['op', '^', ['num', '10'], ['num', '307']]
+        p1022 = ['op', '^', ['num', '2'], ['num', '1022']]
+        big = {'Sheet1!A1': 10 ** 308, 'Sheet1!B1': 2 ** 1023}
+        for t, cells in (
+                (['op', '+', p308, ['num', '0']], {}),
+                (['neg', ['par', p308]], {}),
+                (['op', '*', p307, ['num', '9']], {}),
+                (['op', '*', p1022, ['num', '2']], {}),
+                (['op', '-', ['op', '*', p1022, ['num', '2']], ['num', '1']],
+                 {}),
+                (['op', '*', p308, ['num', '2']], {}),
+                (['op', '*', ['ref', 'A1'], ['num', '1']], big),
+                (['neg', ['ref', 'A1']], big),
+                (['op', '-', ['ref', 'B1'], ['num', '1']], big),
+                (['op', '+', ['ref', 'A1'], ['ref', 'A1']], big),
+                (['op', '>', ['op', '+', ['ref', 'B1'], ['num', '0']],
+                  p307], big)):
+            yield {'tree': t, 'text': '=' + R.render(t), 'cells': cells}
 
 
 # ------------------------------------------------------------------- sampling
